@@ -8,6 +8,7 @@
 //	c14drive mutate -seed S -n N     malformed / mutated byte strings ("never panics, error not message")
 //	c14drive deser                   stdin: "<id> <fmt> <hex>"  ->  what Deserialize / DeserializeDataItem do
 //	c14drive probe                   the recorded witnesses of the known defect classes
+//	c14drive golden                  fixed messages of every type: the wire format (compared with corpus/C14/golden.txt)
 //
 // Every case is one output line
 //
@@ -849,6 +850,64 @@ func cmdMutate(seed uint64, n int) {
 	st.Cases = id
 }
 
+// ------------------------------------------------------------------ golden wire format
+
+// cmdGolden serializes, for every message type, three fixed messages built by
+// reflection over the struct (all fields set; trailing omitempty fields empty;
+// first omitempty field nil and the following ones set) and deserializes the
+// result.  Dicts hold one key, so the bytes are deterministic.  The output on
+// the reference tree is committed as corpus/C14/golden.txt; the check compares.
+func cmdGolden() {
+	id := 0
+	for _, t := range msgTypes {
+		for variant := 0; variant < 3; variant++ {
+			m := wamp.NewMessage(t)
+			if m == nil {
+				fmt.Fprintf(out, "S %d - - | M NewMessage(%d)=nil | D - | V -\n", id, int(t))
+				id++
+				continue
+			}
+			rv := reflect.ValueOf(m).Elem()
+			seenOmit := 0
+			for i := 0; i < rv.NumField(); i++ {
+				f := rv.Field(i)
+				omit := strings.Contains(rv.Type().Field(i).Tag.Get("wamp"), "omitempty")
+				if omit {
+					seenOmit++
+					if variant == 1 || (variant == 2 && seenOmit == 1) {
+						continue
+					}
+				}
+				switch f.Interface().(type) {
+				case wamp.ID:
+					f.SetUint(uint64(1000 + i))
+				case wamp.URI:
+					f.SetString(fmt.Sprintf("u.f%d", i))
+				case string:
+					f.SetString(fmt.Sprintf("s%d", i))
+				case wamp.MessageType:
+					f.SetInt(48)
+				case wamp.Dict:
+					f.Set(reflect.ValueOf(wamp.Dict{fmt.Sprintf("k%d", i): int64(i)}))
+				case wamp.List:
+					f.Set(reflect.ValueOf(wamp.List{int64(i), "x"}))
+				}
+			}
+			ms := msgStr(m)
+			for _, f := range fmts {
+				data, res := doSerialize(f, m)
+				if res != "" {
+					fmt.Fprintf(out, "S %d %s - | M %s | D serialize-%s | V -\n", id, f, ms, res)
+				} else {
+					fmt.Fprintf(out, "S %d %s %s | M %s | D %s | V -\n", id, f, hexs(data), ms, doDeserialize(f, data))
+				}
+				id++
+			}
+		}
+	}
+	st.Cases = id
+}
+
 func cmdDeser() {
 	sc := bufio.NewScanner(os.Stdin)
 	sc.Buffer(make([]byte, 1<<20), 1<<28)
@@ -894,6 +953,8 @@ func main() {
 		cmdDeser()
 	case "probe":
 		cmdProbe()
+	case "golden":
+		cmdGolden()
 	default:
 		fmt.Fprintln(os.Stderr, "unknown command "+cmd)
 		os.Exit(2)
